@@ -56,9 +56,20 @@ func Step(site string, accs ...Acc) {
 	atomic.AddInt64(&Steps, 1)
 }
 
+// SingleThread: outside explorations, exactly one goroutine uses the instrumented package (the
+// nesting sweep of C09). A mutex that is not free then can only be held by the caller itself: the
+// self-deadlock is reported as a panic instead of hanging until the watchdog fires.
+var SingleThread bool
+
 func MutexLock(m *sync.Mutex) {
 	if s := Active; s != nil {
 		s.lock(m)
+		return
+	}
+	if SingleThread {
+		if !m.TryLock() {
+			panic("deadlock: sync.Mutex.Lock on a mutex the only running goroutine already holds")
+		}
 		return
 	}
 	m.Lock()
